@@ -99,9 +99,46 @@ def units_for(chk, F):
     fn, arm = query_arm(F, "UnitsFor")
     fl = for_loops(arm["body"])
     regs = [x for x in fl if H.expr_str(x[0]).startswith("ctx.registry.units")]
-    if len(regs) != 1:
+    if len(regs) == 0:
+        line, pushes = units_for_pipeline(chk, fn, arm)
+    elif len(regs) != 1:
         raise AnchorLost("UnitsFor arm: expected one loop over ctx.registry.units, found %d" % len(regs))
-    it, pat, body, line, loop = regs[0]
+    else:
+        line, pushes = units_for_loop(chk, fn, arm, regs[0])
+    where = "%s:%d" % (fn.file, line)
+    # base unit push
+    outside = [c for c in H.method_calls(arm["body"], "push") if (H.local_name(c["recv"]) or ("",))[0] == "out" and c not in pushes]
+    ok_base = False
+    if len(outside) == 1:
+        for kind, node in H.stmts_of(arm["body"]):
+            e = node if kind != "let" else None
+            if e and e.get("k") == "If" and e["cond"].get("k") == "Let" and "as_single" in H.expr_str(e["cond"]["init"]):
+                ptxt = H.pat_str(e["cond"]["pat"]).replace(" ", "")
+                ok_base = ptxt == "Option::Some((dim,1))" and H.expr_str(e["cond"]["init"]) == "val.unit.as_single()" and \
+                    any(c is outside[0] for c in H.method_calls(e["then"], "push"))
+    chk.decide(ok_base or not outside, "units-for-filter", FK, "base-unit-push", where,
+               "the base unit itself is appended only when X is that base unit to the power one",
+               "a name is appended to the listing outside the dimensionality filter without requiring exponent 1 (%d extra push sites)" % len(outside))
+    # grouping: flush on category change and after the loop
+    groups = [x for x in fl if H.expr_str(x[0]) == "out"]
+    if len(groups) != 1:
+        raise AnchorLost("UnitsFor arm: no grouping loop over `out`")
+    git, gpat, gbody, gline, gloop = groups[0]
+    inloop = [c for c in H.method_calls(gbody, "push") if (H.local_name(c["recv"]) or ("",))[0] == "categories"]
+    allcat = [c for c in H.method_calls(arm["body"], "push") if (H.local_name(c["recv"]) or ("",))[0] == "categories"]
+    after = [c for c in allcat if c not in inloop]
+    curpush = [n for k, n in H.stmts_of(gbody) if k in ("expr", "tail") and n.get("k") == "MethodCall" and n["name"] == "push" and (H.local_name(n["recv"]) or ("",))[0] == "cur"]
+    chk.decide(len(inloop) == 1 and len(after) == 1 and after[0]["line"] > gline, "units-for-filter", FK, "flush-on-change-and-at-end", "%s:%d" % (fn.file, gline),
+               "a group is flushed on every category change and once more after the loop (the last group is not lost)",
+               "grouping flush sites: %d inside the loop, %d after it (expected 1 and 1)" % (len(inloop), len(after)))
+    chk.decide(len(curpush) == 1, "units-for-filter", FK, "every-name-kept", "%s:%d" % (fn.file, gline), "every listed name is added to the current group unconditionally", "names are not unconditionally added to the current group")
+    srt = [c for c in H.method_calls(arm["body"]) if c["name"] in ("sort", "sort_by", "sort_by_key") and (H.local_name(c["recv"]) or ("",))[0] == "out"]
+    chk.decide(len(srt) == 1 and line < srt[0]["line"] < gline, "units-for-filter", FK, "sorted-before-grouping", "%s:%d" % (fn.file, srt[0]["line"] if srt else 0),
+               "the list is sorted by category before grouping (each category forms one group)", "the listing is not sorted between filtering and grouping")
+
+
+def units_for_loop(chk, fn, arm, reg):
+    it, pat, body, line, loop = reg
     where = "%s:%d" % (fn.file, line)
     chk.decide(H.expr_str(it) == "ctx.registry.units.iter()", "units-for-filter", FK, "iterates-all-units", where,
                "every registered unit is considered", "the candidate loop iterates %s" % H.expr_str(it))
@@ -135,35 +172,99 @@ def units_for(chk, F):
     # no adaptor that could drop candidates
     mc = [m["name"] for m in H.method_calls(it)]
     chk.decide(mc == ["iter"], "units-for-filter", FK, "no-dropping-adaptor", where, "no filtering adaptor on the candidate iterator", "candidate iterator uses %s" % mc)
-    # base unit push
-    outside = [c for c in H.method_calls(arm["body"], "push") if (H.local_name(c["recv"]) or ("",))[0] == "out" and c not in pushes]
-    ok_base = False
-    if len(outside) == 1:
-        for kind, node in H.stmts_of(arm["body"]):
-            e = node if kind != "let" else None
-            if e and e.get("k") == "If" and e["cond"].get("k") == "Let" and "as_single" in H.expr_str(e["cond"]["init"]):
-                ptxt = H.pat_str(e["cond"]["pat"]).replace(" ", "")
-                ok_base = ptxt == "Option::Some((dim,1))" and H.expr_str(e["cond"]["init"]) == "val.unit.as_single()" and \
-                    any(c is outside[0] for c in H.method_calls(e["then"], "push"))
-    chk.decide(ok_base or not outside, "units-for-filter", FK, "base-unit-push", where,
-               "the base unit itself is appended only when X is that base unit to the power one",
-               "a name is appended to the listing outside the dimensionality filter without requiring exponent 1 (%d extra push sites)" % len(outside))
-    # grouping: flush on category change and after the loop
-    groups = [x for x in fl if H.expr_str(x[0]) == "out"]
-    if len(groups) != 1:
-        raise AnchorLost("UnitsFor arm: no grouping loop over `out`")
-    git, gpat, gbody, gline, gloop = groups[0]
-    inloop = [c for c in H.method_calls(gbody, "push") if (H.local_name(c["recv"]) or ("",))[0] == "categories"]
-    allcat = [c for c in H.method_calls(arm["body"], "push") if (H.local_name(c["recv"]) or ("",))[0] == "categories"]
-    after = [c for c in allcat if c not in inloop]
-    curpush = [n for k, n in H.stmts_of(gbody) if k in ("expr", "tail") and n.get("k") == "MethodCall" and n["name"] == "push" and (H.local_name(n["recv"]) or ("",))[0] == "cur"]
-    chk.decide(len(inloop) == 1 and len(after) == 1 and after[0]["line"] > gline, "units-for-filter", FK, "flush-on-change-and-at-end", "%s:%d" % (fn.file, gline),
-               "a group is flushed on every category change and once more after the loop (the last group is not lost)",
-               "grouping flush sites: %d inside the loop, %d after it (expected 1 and 1)" % (len(inloop), len(after)))
-    chk.decide(len(curpush) == 1, "units-for-filter", FK, "every-name-kept", "%s:%d" % (fn.file, gline), "every listed name is added to the current group unconditionally", "names are not unconditionally added to the current group")
-    srt = [c for c in H.method_calls(arm["body"]) if c["name"] in ("sort", "sort_by", "sort_by_key") and (H.local_name(c["recv"]) or ("",))[0] == "out"]
-    chk.decide(len(srt) == 1 and line < srt[0]["line"] < gline, "units-for-filter", FK, "sorted-before-grouping", "%s:%d" % (fn.file, srt[0]["line"] if srt else 0),
-               "the list is sorted by category before grouping (each category forms one group)", "the listing is not sorted between filtering and grouping")
+    return line, pushes
+
+
+DROPPING = {"filter", "filter_map", "skip", "take", "step_by", "skip_while", "take_while", "map_while", "flat_map", "flatten", "nth", "rev",
+            "find", "find_map", "last", "next", "zip", "dedup", "dedup_by_key", "retain", "truncate"}
+
+
+def units_for_pipeline(chk, fn, arm):
+    """`let out = ctx.registry.units.iter().<adaptors>.collect()`: every way an adaptor can drop a unit must be the
+    dimensionality test or the pure-alias test."""
+    body = H.simplify(arm["body"])
+    init = None
+    for kind, n in H.stmts_of(body):
+        if kind == "let" and n["pat"].get("name") == "out" and n.get("init"):
+            init = n
+    if init is None:
+        raise AnchorLost("UnitsFor arm: neither a loop over ctx.registry.units nor `let out = <iterator chain>`")
+    line = init["line"]
+    where = "%s:%d" % (fn.file, line)
+    chain = []
+    e = init["init"]
+    while e.get("k") == "MethodCall":
+        chain.append(e)
+        e = e["recv"]
+    chain.reverse()
+    if H.expr_str(e) != "ctx.registry.units" or not chain or chain[0]["name"] != "iter" or chain[-1]["name"] != "collect":
+        raise AnchorLost("UnitsFor arm: `out` is not built as ctx.registry.units.iter()...collect() (%s)" % H.expr_str(init["init"], 80))
+    chk.ok("units-for-filter", FK, "iterates-all-units", where, "every registered unit enters the pipeline")
+    reasons = []
+    for m in chain[1:-1]:
+        nm = m["name"]
+        if nm == "map" or nm in ("copied", "cloned", "by_ref", "into_iter", "peekable", "enumerate", "inspect"):
+            continue
+        if nm not in ("filter", "filter_map") or len(m["args"]) != 1 or m["args"][0].get("k") != "Closure":
+            if nm in DROPPING:
+                chk.finding("units-for-filter", FK, "no-dropping-adaptor", where, "the candidate pipeline uses `.%s(..)`, which can drop units" % nm)
+                continue
+            raise AnchorLost("UnitsFor arm: unknown adaptor .%s() in the candidate pipeline" % nm)
+        cb = m["args"][0]["body"]
+        if cb.get("k") == "Block" and not cb["stmts"] and cb.get("expr"):
+            cb = cb["expr"]
+        if nm == "filter":
+            if cb.get("k") == "Binary" and cb["op"] == "Eq" and {H.expr_str(cb["a"]), H.expr_str(cb["b"])} == {"val.unit", "unit.unit"}:
+                reasons.append(("not", "val.unit==unit.unit", m["line"]))
+            else:
+                reasons.append(("not", H.expr_str(cb), m["line"]))
+        else:
+            for t in hir_walk(cb):
+                if t.get("k") == "Try":
+                    reasons.append(("none", H.expr_str(t["e"]), t["line"]))
+            def nones(x, ctx):
+                k = x.get("k")
+                if k == "Path" and x["r"].get("ctor_of", "").endswith("Option::None"):
+                    reasons.append(ctx + (x["line"],))
+                elif k == "Block":
+                    if x.get("expr"):
+                        nones(x["expr"], ctx)
+                elif k == "Match" and x.get("src") == "Normal":
+                    sc = x["scrut"]
+                    if sc.get("k") == "Unary" and sc.get("op") == "Deref" and sc["a"].get("k") == "Try":
+                        stxt = "*" + H.expr_str(sc["a"]["e"]) + "?"
+                    else:
+                        stxt = H.expr_str(sc)
+                    for a in x["arms"]:
+                        nones(a["body"], ("match", stxt + " ~ " + H.pat_str(a["pat"])))
+                elif k == "If":
+                    c = x["cond"]
+                    ctxt = ("match", H.expr_str(c["init"]) + " ~ " + H.pat_str(c["pat"])) if c.get("k") == "Let" else ("if", H.expr_str(c))
+                    nones(x["then"], ctxt)
+                    if x.get("else"):
+                        nones(x["else"], ("else", ctxt[1]))
+            nones(cb, ("always", ""))
+    dim = alias = False
+    for r in reasons:
+        kind, txt, ln = r[0], r[1], r[-1]
+        t = txt.replace(" ", "")
+        if kind == "not" and t in ("val.unit==unit.unit", "unit.unit==val.unit"):
+            dim = True
+        elif kind == "match" and "ctx.registry.definitions.get(name)" in t and "~" in t and "Expr::Unit" in t.split("~")[1] \
+                and not t.split("~")[0].endswith("?") and "Try" not in t:
+            alias = True
+        elif kind == "match" and t.startswith("*ctx.registry.definitions.get(name)?~") and "Expr::Unit" in t.split("~")[1]:
+            alias = True      # the `?` itself is reported through its own 'none' reason
+        else:
+            what = {"not": "`%s` is false", "none": "`%s` is None", "match": "%s", "if": "`%s` holds", "else": "`%s` does not hold", "always": "always%s"}[kind] % txt
+            chk.finding("units-for-filter", FK, "skips-only-pure-aliases", "%s:%d" % (fn.file, ln),
+                        "the candidate pipeline drops a unit when %s; only units of another dimensionality and pure aliases "
+                        "(definitions.get(name) == Some(Expr::Unit)) may be left out, units without a definition are kept" % what)
+    chk.decide(dim, "units-for-filter", FK, "push-behind-equal-dimensionality", where,
+               "a unit is listed only behind `val.unit == unit.unit`", "no `val.unit == unit.unit` filter in the candidate pipeline")
+    if alias and not any(i["verdict"] == "finding" and i["rule"] == "units-for-filter" for i in chk.instances):
+        chk.ok("units-for-filter", FK, "skips-only-pure-aliases", where, "the only other unit dropped is a pure alias")
+    return line, []
 
 
 def factorize(chk, F):
